@@ -381,6 +381,9 @@ class Gen(object):
         d = self.d
         d.chance(5, 6)
         doc = {"doctype": True, "pre": [], "post": []}     # a conforming document has a doctype (without one the parser is in quirks mode)
+        # drawn first: once the bytes are used up every later draw is 0, which would make these two the rule instead of the exception
+        empty_body = d.chance(1, 9)
+        comment_after_body = d.chance(1, 7)
         if d.chance(1, 8):
             doc["pre"].append(self.comment())
         head = self.head()
@@ -399,8 +402,12 @@ class Gen(object):
             # first child of body is one of the elements the optional-tag rules single out
             body_kids = [d.pick([E("meta", [[None, "itemprop", "x"], [None, "content", "y"]]), E("link", [[None, "itemprop", "x"], [None, "href", "y"]]),
                                  self.rawtext("script"), self.rawtext("style"), E("noscript", [], [E("p", [], [T("x")])])])] + body_kids
+        if empty_body:
+            body_kids = []          # an empty body element: its start tag (and </head> in front of it) can be omitted
         body = E("body", self.attrs("body") if d.chance(1, 5) else [], body_kids)
         html_kids = [head, body]
+        if comment_after_body:
+            html_kids.append(C(d.pick(["", "after body", " c ", "x-y"])))      # a comment after </body>: it belongs to the html element, and keeps </body> in the output
         doc["html"] = E("html", [[None, "lang", "en"]] if d.chance(1, 4) else [], html_kids)
         if d.chance(1, 10):
             doc["post"].append(self.comment())
@@ -752,6 +759,13 @@ def _doc_strategy(size=40):
     return sized_binary(20, 60 + size * 6).map(lambda b: decode_document(b, size=size, always_doctype=True))
 
 
+PERMITTED_DOCTYPES = ['<!DOCTYPE html SYSTEM "about:legacy-compat">', '<!DOCTYPE HTML PUBLIC "-//W3C//DTD HTML 4.0//EN">',
+                      '<!DOCTYPE HTML PUBLIC "-//W3C//DTD HTML 4.0//EN" "http://www.w3.org/TR/REC-html40/strict.dtd">', '<!DOCTYPE HTML PUBLIC "-//W3C//DTD HTML 4.01//EN">',
+                      '<!DOCTYPE html PUBLIC "-//W3C//DTD HTML 4.01//EN" "http://www.w3.org/TR/html4/strict.dtd">',
+                      '<!DOCTYPE html PUBLIC "-//W3C//DTD XHTML 1.0 Strict//EN" "http://www.w3.org/TR/xhtml1/DTD/xhtml1-strict.dtd">',
+                      '<!DOCTYPE html PUBLIC "-//W3C//DTD XHTML 1.1//EN" "http://www.w3.org/TR/xhtml11/DTD/xhtml11.dtd">', "<!doctype HTML>"]
+
+
 def check_optional_tags_equivalence(case):
     """C13 clause 2: for a conforming document, the stream with optional tags removed parses to the same tree as the unfiltered stream (and as the document)."""
     from html5lib.serializer import HTMLSerializer
@@ -766,18 +780,36 @@ def check_optional_tags_equivalence(case):
     tree, p = h5.parse(writer(doc), builder=walker, full_tree=True)
     if obs.clarkify(obs.flat(tree)) != want:
         return Verdict("excluded", finding="generated tree not parsed back from the explicit writer (C01-class deviation)")
-    res = {}
+    variants = [None]
+    if case.get("doctype_variant") and writer(doc).startswith("<!DOCTYPE html>"):
+        # the same document under every other DOCTYPE a conforming document may carry (the 'obsolete permitted' strings): no-quirks or
+        # limited-quirks mode, which must not matter to how the output parses
+        variants += PERMITTED_DOCTYPES if case["doctype_variant"] % 2 else [PERMITTED_DOCTYPES[case["doctype_variant"] % len(PERMITTED_DOCTYPES)]]
     enc = case.get("encoding")      # with a narrow output encoding text arrives as character references in the re-parse
     if enc and unencodable_nontext(doc, enc):
         enc = None
-    for omit in (False, True):
-        s = HTMLSerializer(omit_optional_tags=omit, inject_meta_charset=False, quote_attr_values="always", minimize_boolean_attributes=False)
-        if enc:
-            out = s.render(h5.walk(tree, walker), enc).decode(enc)
-        else:
-            out = s.render(h5.walk(tree, walker))
-        r2, _ = h5.parse(out, builder="etree", full_tree=True)
-        res[omit] = (out, obs.clarkify(obs.flat(r2)))
+    res = None
+    for dt in variants:
+        if dt is not None:
+            tree_v, p = h5.parse(dt + writer(doc)[len("<!DOCTYPE html>"):], builder=walker, full_tree=True)
+            strip = lambda F: [r for r in F if r[1] != "doctype"]
+            if strip(obs.clarkify(obs.flat(tree_v))) != strip(want):
+                return Verdict("fail", "conforming document parses to another tree under the permitted DOCTYPE %s; markup %s" % (dt, short(writer(doc), 300)), "doc-doctype-variant", nontrivial=True)
+            tree = tree_v
+        res_v = {}
+        for omit in (False, True):
+            s = HTMLSerializer(omit_optional_tags=omit, inject_meta_charset=False, quote_attr_values="always", minimize_boolean_attributes=False)
+            if enc:
+                out = s.render(h5.walk(tree, walker), enc).decode(enc)
+            else:
+                out = s.render(h5.walk(tree, walker))
+            r2, _ = h5.parse(out, builder="etree", full_tree=True)
+            res_v[omit] = (out, obs.clarkify(obs.flat(r2)))
+        if res is None:
+            res = res_v
+        if res_v[True][1] != res_v[False][1]:
+            res = res_v
+            break
     feats, n_el = features(doc)
     nontrivial = "omittable-tag" in feats and res[True][0] != res[False][0]
     sig = sig64("doc", repr(want))
@@ -816,6 +848,8 @@ def run_optional_tags_docs(acc, n, seed):
         case = {"kind": "doc", "doc": doc, "walker": "etree" if len(doc["html"][4][1][4]) % 2 else "dom"}
         if len(writer(doc)) % 3 == 0:
             case["encoding"] = "ascii"
+        if len(writer(doc)) % 2 == 0:
+            case["doctype_variant"] = 1 + len(writer(doc)) // 2
         acc.add(case, check_optional_tags_equivalence(case), sample={"kind": "doc", "markup": short(writer(doc), 300)})
     drive(_doc_strategy(40), fn, n, seed)
 
